@@ -17,7 +17,7 @@ class TagHandler(cerr.BasicErrorHandler):
     """the default handler with `_format_message` replaced by a tag"""
 
     def _format_message(self, field, error):
-        sp = '/'.join(str(x) for x in error.schema_path)
+        sp = '<str>' if isinstance(error.schema_path, str) else '/'.join(str(x) for x in error.schema_path)
         return '%d@%s#%s' % (error.code, sp, field)
 
 
